@@ -16,10 +16,17 @@ struct EagerMap
 {
     PowerMap<T> inner;
     bool eager;
+    int coord_return = 0;     // what the coordinates call returns (documented as ignored): 0 jacobian, 1 zero, 2 NaN
     T operator()(std::size_t channel, std::vector<T> const& rn, std::vector<T>& co, std::vector<std::size_t> const& enabled, std::vector<T>& dens,
         hep::multi_channel_map action) const
     {
-        if (!eager) return inner(channel, rn, co, enabled, dens, action);
+        if (!eager)
+        {
+            T r = inner(channel, rn, co, enabled, dens, action);
+            if (action == hep::multi_channel_map::calculate_coordinates && coord_return == 1) return T();
+            if (action == hep::multi_channel_map::calculate_coordinates && coord_return == 2) return std::numeric_limits<T>::quiet_NaN();
+            return r;
+        }
         if (action == hep::multi_channel_map::calculate_coordinates)
         {
             T j = inner(channel, rn, co, enabled, dens, action);
@@ -219,6 +226,7 @@ template <typename Eng> void run_with(Rng& rng, Eng eng, int kind, std::size_t d
         for (std::size_t c = 0; c < channels; ++c) em.inner.a.push_back(T(rng.below(4)) * T(0.5));
         em.inner.jac = rng.below(2) ? T() : T(0.5);
         em.eager = rng.below(2);
+        em.coord_return = (int)rng.below(3);
         std::vector<T> w(channels);
         for (auto& x : w) x = rng.below(3) ? T(rng.range(1, 9)) : T();
         bool any = false;
